@@ -130,7 +130,9 @@ def finish(res, t0, level, checker_cmd, replay_fn=None, extra_cov=None, rule=Non
                 refuted.append((n, bad[0]))
         elif und:
             undecided.append((n, und[0], und[0].detail or "solver unknown"))
-    vacuous = [n for n, obs in covers.items() if any(o.verdict == "vacuous" for o in obs)]
+    refuted_funcs = {ob.func for _, ob in refuted}
+    # a cover that is unsatisfiable only because a refuted obligation was assumed afterwards is not a vacuity problem
+    vacuous = [n for n, obs in covers.items() if any(o.verdict == "vacuous" for o in obs) and obs[0].func not in refuted_funcs]
     n_dis = len([n for n, obs in real.items() if obs[0].kind in proof_kinds and all(o.verdict == "discharged" for o in obs)])
     n_bounded = len([n for n, obs in real.items() if obs[0].kind == "bounded"])
     # known findings
@@ -148,7 +150,11 @@ def finish(res, t0, level, checker_cmd, replay_fn=None, extra_cov=None, rule=Non
                          "model": ob.model, "detail": ob.detail},
               "native": None}
         found = False
-        if replay_fn is not None:
+        if ob.kind == "bounded" and ob.model:
+            # a bounded stand-in fails on a concrete input of the real code: that input is the replay
+            rp["native"] = {"failed": True, "input": ob.model}
+            found = True
+        elif replay_fn is not None:
             try:
                 nat = replay_fn(ob)
             except Exception as ex:
